@@ -456,7 +456,7 @@ func (t *v2T) oovWord(c *v2C) string {
 	}
 }
 
-// oovBlock: 1..maxLines lines of 1..8 OOV words, each line newline-terminated.
+// oovBlock: 1..maxLines lines of 1..8 OOV words (some hyphenated across a line break), each line newline-terminated.
 func (t *v2T) oovBlock(c *v2C, maxLines int) []byte {
 	var sb strings.Builder
 	for n := 1 + t.rng.Intn(maxLines); n > 0; n-- {
@@ -465,6 +465,15 @@ func (t *v2T) oovBlock(c *v2C, maxLines int) []byte {
 				sb.WriteByte(' ')
 			}
 			sb.WriteString(t.oovWord(c))
+		}
+		// every fourth line ends in a word hyphenated across the line break; its second half is alone on its
+		// line or followed by more words (the joined word is out of vocabulary as well)
+		if t.rng.Intn(4) == 0 {
+			w := t.oovWord(c)
+			sb.WriteString(" " + w[:3] + "-\n" + w[3:])
+			if t.rng.Intn(2) == 0 {
+				sb.WriteString(" " + t.oovWord(c))
+			}
 		}
 		sb.WriteByte('\n')
 	}
